@@ -4,11 +4,11 @@ package main
 
 import (
 	"fmt"
-	"os"
-	"sort"
 	"go/token"
 	"go/types"
 	"math/big"
+	"os"
+	"sort"
 	"strings"
 
 	"golang.org/x/tools/go/ssa"
@@ -685,6 +685,11 @@ func (fv *FV) loopEnter(fr *Frame, st *State, li *loopInfo) {
 		}
 	}
 	fv.havocFramed(st, locs, fmt.Sprintf("loop%d", li.ordinal))
+	if lc.HasMod {
+		// from here until the loop is left, only the loop's own frame may be written
+		st.loopFrames = append(st.loopFrames, loopFrame{li: li, outer: st.mods, outerAny: st.modsAny})
+		st.mods, st.modsAny = locs, false
+	}
 	nwm := fv.fresh("wm", IntSort)
 	st.assume(Ge(nwm, st.wm))
 	st.wm = nwm
@@ -1260,9 +1265,7 @@ func (fv *FV) chanSend(fr *Frame, st *State, x *ssa.Send) {
 
 var _ = big.NewInt
 
-
 type stopPath struct{}
-
 
 func truncate(s string, n int) string {
 	if len(s) > n {
@@ -1270,7 +1273,6 @@ func truncate(s string, n int) string {
 	}
 	return s
 }
-
 
 // appendCases models append by case distinction (nothing appended / fits in place / reallocation), one path each,
 // so that the resulting slice and memory are ite-free on every path.
@@ -1342,7 +1344,6 @@ func (fv *FV) appendCases(st *State, s, t SliceV, et types.Type, x ssa.Instructi
 	}
 	return outs
 }
-
 
 // allKeys: every heap array the function may touch (collected by a first symbolic pass) plus those of this state.
 func (fv *FV) allKeys(st *State) map[string]bool {
